@@ -761,14 +761,14 @@ void run_agg(vh::Case &c)
 
 }  // namespace
 
-VH_TARGET(agg_double, 3,
+VH_TARGET(agg_double, 4,
           "non-trivial when some value is 0 or exactly a boundary, or at least 2 chunks are merged; "
           "distinct = distinct (boundaries, min/max flag, values with chunk, merge order) text")
 {
   run_agg<double>(c);
 }
 
-VH_TARGET(agg_long, 3,
+VH_TARGET(agg_long, 4,
           "non-trivial when some value is 0 or exactly a boundary, or at least 2 chunks are merged; "
           "distinct = distinct (boundaries, min/max flag, values with chunk, merge order) text")
 {
@@ -962,7 +962,7 @@ void check_final(vh::Case &c,
 }
 }  // namespace
 
-VH_TARGET(meter_cycles, 4,
+VH_TARGET(meter_cycles, 5,
           "a history is non-trivial when some recorded value is 0 or exactly a boundary, or some "
           "reader combines >= 2 collection intervals of one series (a cumulative reader collecting "
           "twice with data in between, or any reader behind another reader's Collect); distinct = "
